@@ -15,6 +15,7 @@ static const uint16_t* g_cur = nullptr;
 static size_t g_cur_n = 0;
 static std::string g_out;
 static bool g_in_case = false;
+static Ctx* g_ctx = nullptr;
 
 static const char* outdir() {
     if (g_out.empty()) {
@@ -84,6 +85,7 @@ void dump_stats() {
 static void on_death() {
     // a sanitizer report or failed assert: keep the tape that was executing
     if (g_in_case && g_cur) write_file("crash.tape", g_cur, g_cur_n * 2);
+    if (g_in_case && g_ctx) { write_file("crash.txt", g_ctx->desc.data(), g_ctx->desc.size()); fprintf(stderr, "VF-CRASH-CASE %s\n", g_ctx->desc.c_str()); }
     dump_stats();
 }
 
@@ -106,7 +108,7 @@ int run_case(const uint16_t* d, size_t n, std::string* msg, bool fuzz_entry) {
     install();
     Ctx c;
     c.t.d = d; c.t.n = n;
-    g_cur = d; g_cur_n = n; g_in_case = true;
+    g_cur = d; g_cur_n = n; g_in_case = true; g_ctx = &c;
     int rc = 0;
     g_stats.cases++;
     try {
@@ -123,7 +125,7 @@ int run_case(const uint16_t* d, size_t n, std::string* msg, bool fuzz_entry) {
         rc = 2; g_stats.discard++;
         g_stats.labels[std::string("discard:") + dd.why]++;
     }
-    g_in_case = false;
+    g_in_case = false; g_ctx = nullptr;
     if (rc == 0 && c.nontrivial) {
         g_stats.nontrivial++;
         size_t keep = c.t.back ? n : std::min(n, c.t.pos);
